@@ -1,6 +1,7 @@
 import MW.Inv.GReach
 import MW.Inv.WorldInv
 import MW.Inv.Demo
+import MW.Inv.WorldStaker
 /-!
 # C01 — Staked-asset accounting is fully backed
 
@@ -14,8 +15,11 @@ Where the forwarded tokens are is a statement about the chain's ledgers: `C01_lo
 every history of the chain model that satisfies the honest-environment conditions (DESIGN.md §12),
 that everything forwarded toward the staker is in flight to it, delivered to it, or refunded and
 still earmarked for re-send to it, and `C01_backed` that the reported staked total is backed by
-exactly those tokens.  Not proved: the corollary about the staker's own holdings on
-the native chain (what the staker does with delivered tokens is outside the model).
+exactly those tokens.  The property's second sentence is `C01_staker_position` (what has been delivered
+to the staker, every history) and `C01_staker_can_return` (an operator who has returned, for every
+batch received so far, what that batch expected, holds the outstanding batches' expected amounts plus
+exactly the reported total, up to what is still on its way).  The staker's holdings are *defined* as
+delivered − returned: what the staker does with delivered tokens (delegation, slashing) is outside the model.
 -/
 namespace MW.Props.C01
 open MW MW.Staking
@@ -152,12 +156,90 @@ theorem C01_backed {env : Env} {info : Info} {msg : InstantiateMsg} {c0 : CState
   simp only
   omega
 
+open MW.Chain in
+/-- **What the staker has been given, every history.**  Along every history of the chain model that satisfies the
+honest-environment conditions: the staked asset delivered to the staker on the native chain, plus what is still
+in flight to it, plus what was refunded and is earmarked for re-send to it, equals the staked total the State
+query reports, plus the expected amounts of all batches submitted and not yet received, plus the expected
+amounts of the batches already received, plus the ownerless stake swept to fees (minus the re-basing term of a
+ResumeContract with non-matching totals).  `SInv` (the set-aside counter is the sum the batches record) holds
+along every history without any condition. -/
+theorem C01_staker_position {env : Env} {info : Info} {msg : InstantiateMsg} {c0 : CState} {out : List SubMsg}
+    (hi : instantiate env info msg = .ok (c0, out)) (self pfx : String) (t hgt : Nat) (evs : List Event)
+    (hok : AllOK (bootWorld c0 self pfx t hgt) evs) :
+    let r := runW (bootWorld c0 self pfx t hgt) {} evs
+    let S := r.1.c.config.native.staker
+    let D := r.1.c.config.proto.ibcDenom
+    (delW S D r.1.pkts : Int) + pendW S D r.1.pkts + locC S D r.1.c + r.2.rebaseN
+      = r.1.c.st.totalNative + outSum r.1.c + doneSum r.1.c + r.2.swept := by
+  have h := world_history_winv hi self pfx t hgt evs hok
+  have hs := world_history_sinv hi self pfx t hgt evs
+  have hc := cinv_reach (world_history_creach hi self pfx t hgt evs)
+  have h1 := h.n1
+  have h2 := h.f1
+  have h3 := expSum_split hc
+  have h4 := locW_split (runW (bootWorld c0 self pfx t hgt) {} evs).1.c.config.native.staker
+    (runW (bootWorld c0 self pfx t hgt) {} evs).1.c.config.proto.ibcDenom (runW (bootWorld c0 self pfx t hgt) {} evs).1.pkts
+  unfold SInv at hs
+  simp only
+  omega
+
+open MW.Chain in
+/-- **"Hence …": the staker holds enough.**  Call the staker's holdings what was delivered to it minus what it has
+returned through `ReceiveUnstakedTokens` (`recvSum`, the received amounts the batches record; no slashing and no
+other outflow — that is the honest-operator reading, and it is a definition here, the native chain is not
+modelled further).  If the operator has returned for every batch received so far exactly what that batch expected,
+then along every history satisfying the conditions the holdings plus what is still on its way to the staker equal
+the outstanding batches' expected amounts plus the reported staked total (plus the swept stake, minus the
+re-basing term): every outstanding batch can be returned in full and the remaining total stays backed exactly. -/
+theorem C01_staker_can_return {env : Env} {info : Info} {msg : InstantiateMsg} {c0 : CState} {out : List SubMsg}
+    (hi : instantiate env info msg = .ok (c0, out)) (self pfx : String) (t hgt : Nat) (evs : List Event)
+    (hok : AllOK (bootWorld c0 self pfx t hgt) evs)
+    (honest : recvSum (runW (bootWorld c0 self pfx t hgt) {} evs).1.c = doneSum (runW (bootWorld c0 self pfx t hgt) {} evs).1.c) :
+    let r := runW (bootWorld c0 self pfx t hgt) {} evs
+    let S := r.1.c.config.native.staker
+    let D := r.1.c.config.proto.ibcDenom
+    let holdings : Int := (delW S D r.1.pkts : Int) - recvSum r.1.c
+    holdings + pendW S D r.1.pkts + locC S D r.1.c + r.2.rebaseN
+      = outSum r.1.c + r.1.c.st.totalNative + r.2.swept := by
+  have h := C01_staker_position hi self pfx t hgt evs hok
+  simp only at h ⊢
+  omega
+
 /-! non-vacuity of `C01_located`: the demo history (two stakes, a refund and recovery of an LST packet,
 rewards) satisfies the conditions; 3900 forwarded, 3900 in flight to the staker -/
 section Demo
 open MW.Chain MW.Chain.Demo
 #guard (demoBoot.map fun w => allOKb w demoEvents) == some true
 #guard (demoBoot.map fun w => let r := runW w {} demoEvents; (summary r.1 r.2).drop 10) == some [3900, 3900, 0]
+/-- the same history followed by the success acknowledgements of both stake packets: 3000 delivered to the staker,
+the 900 of the reward still in flight; batch 1 expected 500 and the operator returned 480 for it:
+3000 + 900 + 0 = reported total 3400 + outstanding 0 + received batches' expectations 500 + swept 0 -/
+def demoAcked : List Event := demoEvents ++ [.ack 1 true, .ack 2 true]
+#guard (demoBoot.map fun w => allOKb w demoAcked) == some true
+#guard (demoBoot.map fun w => let r := runW w {} demoAcked
+          let S := r.1.c.config.native.staker
+          [delW S demoD r.1.pkts, pendW S demoD r.1.pkts, locC S demoD r.1.c, outSum r.1.c, doneSum r.1.c, recvSum r.1.c,
+           r.1.c.st.totalNative, r.2.swept]) == some [3000, 900, 0, 0, 500, 480, 3400, 0]
+/-- non-vacuity of `C01_staker_can_return`: the operator returns the 500 batch 1 expects, a second batch of 300 LST
+is submitted and still outstanding (expected 408 at the rate the reward produced): holdings 3000 − 500 = 2500, 900 in
+flight; 2500 + 900 = outstanding 408 + reported total 2992 -/
+def demoHonest : List Event :=
+  demoEvents1 ++
+  [ .advance (86400 * 1000000000) 100,
+    .exec demoUser [] .submitBatch {} (some 0),
+    .advance (1814400 * 1000000000) 100,
+    .hook "channel-7" demoStaker ⟨demoD, 500⟩ (.receiveUnstakedTokens 1) {},
+    .exec demoUser [] (.withdraw 1) {} (some 0),
+    .hook "channel-7" demoCollector ⟨demoD, 1000⟩ .receiveRewards {},
+    .ack 1 true, .ack 2 true,
+    .exec demoUser [⟨demoX, 300⟩] .liquidUnstake {} (some 0),
+    .exec demoUser [] .submitBatch {} (some 0) ]
+#guard (demoBoot.map fun w => allOKb w demoHonest) == some true
+#guard (demoBoot.map fun w => let r := runW w {} demoHonest
+          let S := r.1.c.config.native.staker
+          [delW S demoD r.1.pkts, pendW S demoD r.1.pkts, locC S demoD r.1.c, outSum r.1.c, doneSum r.1.c, recvSum r.1.c,
+           r.1.c.st.totalNative, r.2.swept]) == some [3000, 900, 0, 408, 500, 500, 2992, 0]
 end Demo
 
 /-- non-vacuity: totals 0/0, a stake of 1000 forwards 1000 and the equation reads 1000 = 1000 -/
